@@ -553,6 +553,17 @@ def build(ctx, portable=False):
                               cpu=(['X86_CPUID'] if portable else None))
 
 
+# Builds in which an intermediate instruction-set level is the best one
+# compiled in: the 32-bit SSE4.2 CRC32C loop (what an i386 build gets) and the
+# SSE2 SHA-256 compression function (a CPU without SHA extensions).
+EXTRA_BUILDS = [('sse42-32bit-crc', ['X86_CPUID', 'X86_SSE42']), ('sse2-sha256', ['X86_CPUID', 'X86_SSE2'])]
+
+
+def build_cpu(ctx, tag, cpu):
+    objs = ctx.builder.lib('asan', SRCS, cpu=cpu)
+    return ctx.builder.driver('c01-' + tag, 'asan', ['c01_hash.c'], objs, libs=(), cpu=cpu)
+
+
 def build_nosan(ctx):
     """The same sources and driver at -O1 without the sanitizers, used by the
     quick tier for the ONE SHA-1 call of 2^32+d bytes only (ASan+UBSan slow the
@@ -566,8 +577,9 @@ def run(ctx):
     exe = build(ctx)
     exep = build(ctx, portable=True)
     n = core.NCPU
-    seeds = core.shard_seeds(ctx.seed, 'C01', 2 * n)
+    seeds = core.shard_seeds(ctx.seed, 'C01', 2 * n + len(EXTRA_BUILDS) * n)
     exes = {'default': exe, 'portable': exep}
+    xexes = [build_cpu(ctx, tag, cpu) for tag, cpu in EXTRA_BUILDS]
     hc = huge_cases(ctx.seed, ctx.tier)
     if any(b == 'nosan' for b, _ in hc):
         exes['nosan'] = build_nosan(ctx)
@@ -578,7 +590,9 @@ def run(ctx):
         [('long', exe, c) for c in lc] + \
         [('long', exep, c) for c in lc if c['line'].startswith('L sha256')] + \
         [('shard', exe, seeds[i], ctx.tier, i, n) for i in range(n)] + \
-        [('shard', exep, seeds[n + i], ctx.tier, i, n) for i in range(n)]
+        [('shard', exep, seeds[n + i], ctx.tier, i, n) for i in range(n)] + \
+        [('shard', xe, seeds[(2 + j) * n + i], ctx.tier, i, n) for j, xe in enumerate(xexes)
+         for i in range(0, n, 2)]       # every second shard's share of the enumerations
     allres = core.pmap(_job, jobs)
     hres = [r for j, r in zip(jobs, allres) if j[0] == 'huge']
     lres = [r for j, r in zip(jobs, allres) if j[0] == 'long']
@@ -602,6 +616,7 @@ def run(ctx):
     if any(r['evals'] == 0 for r in hres) and not ctx.violations and not ctx.known_hits:
         ctx.note_inconclusive('a single call of 2^32+d bytes gave no answer')
     ctx.cov['builds'] = ['default (SHA-NI / SSE2 / SSE4.2 as the CPU allows)', 'portable (no CPU feature compiled in)'] + \
+        ['%s (CPUSUPPORT: %s; half of the shards)' % (t, ' '.join(c)) for t, c in EXTRA_BUILDS] + \
         (['nosan (default CPU features, -O1, no sanitizers; only the quick SHA-1 call of 2^32+d bytes)']
          if 'nosan' in exes else [])
     ctx.count('long_streams_over_2^32_bits', sum(r['evals'] for r in lres))
@@ -641,6 +656,8 @@ def replay(ctx, case):
         return
     for portable in (False, True):
         _replay1(ctx, case, build(ctx, portable))
+    for tag, cpu in EXTRA_BUILDS:
+        _replay1(ctx, case, build_cpu(ctx, tag, cpu))
 
 
 def _replay1(ctx, case, exe):
